@@ -8,7 +8,10 @@ def run(ctx):
         configs += [([g], ["T1", "T2"], 1, 1) for g in lazydrv.ALL_GROUPS]
     import random
     extra = lazydrv.private_scenarios(random.Random(ctx.seed + 1), 24 if quick else 200)
-    lazydrv.process(ctx, configs, quick, only_private=True, extra_histories=extra)
+    lazydrv.load_fix_flags()
+    sim = lazydrv.simulate_histories(ctx, ["T1", "T2"], 12, 4 if quick else 60, ctx.seed + 10)
+    random.Random(ctx.seed).shuffle(sim)
+    lazydrv.process(ctx, configs, quick, only_private=True, extra_histories=extra + sim[:(80 if quick else 3000)])
 
 def replay(ctx, path):
     return lazydrv.replay(ctx, path)
